@@ -41,6 +41,7 @@ fn parse_line(line: &str) -> Result<Option<(IpAddr, HashSet<DomainName>)>, Error
     let mut state = State::SkipToAddress;
     let mut address = IpAddr::V4(Ipv4Addr::LOCALHOST);
     let mut new_names = HashSet::new();
+    let mut address_error = None;
 
     // a comment runs from the first `#` to the end of the line,
     // whatever comes before or after it
@@ -63,11 +64,8 @@ fn parse_line(line: &str) -> Result<Option<(IpAddr, HashSet<DomainName>)>, Error
                 let addr_str = &line[*start..i];
                 match IpAddr::from_str(addr_str) {
                     Ok(addr) => address = addr,
-                    Err(_) => {
-                        return Err(Error::CouldNotParseAddress {
-                            address: addr_str.into(),
-                        })
-                    }
+                    // only an error if the line goes on to name something
+                    Err(_) => address_error = Some(addr_str),
                 }
                 State::SkipToName
             }
@@ -111,6 +109,10 @@ fn parse_line(line: &str) -> Result<Option<(IpAddr, HashSet<DomainName>)>, Error
 
     if new_names.is_empty() {
         Ok(None)
+    } else if let Some(addr_str) = address_error {
+        Err(Error::CouldNotParseAddress {
+            address: addr_str.into(),
+        })
     } else {
         Ok(Some((address, new_names)))
     }
